@@ -51,6 +51,7 @@ Qed.
 
 Section InvStk.
 Variable loads : label -> list label.
+Variable bad : label -> bool.
 
 Record inv_stk (s : state) : Prop := {
   s_out : forall tid, nthr s <= tid -> thr s tid = mkT [] PFin;
@@ -370,7 +371,7 @@ Proof.
 Qed.
 
 
-Lemma inv_stk_step : forall s tid s', inv_stk s -> inv_reg s -> tid < nthr s -> kstep loads s tid s' -> inv_stk s'.
+Lemma inv_stk_step : forall s tid s', inv_stk s -> inv_reg s -> tid < nthr s -> kstep loads bad s tid s' -> inv_stk s'.
 Proof.
   intros s tid s' IS IR Hlt K.
   assert (Hsh := s_shape _ IS tid). unfold shape in Hsh.
